@@ -27,7 +27,6 @@ use super::world::{self, Track};
 use crate::Jet1090;
 use rs1090::decode::cpr::Position;
 use rs1090::prelude::*;
-use rs1090::source::beast::{BeastSource, DataSource};
 use serde::{Deserialize, Serialize};
 use serde_json::Value;
 use std::cell::RefCell;
@@ -95,6 +94,129 @@ impl AsyncRead for TimedPipe {
     }
 }
 
+/// The same delivery plan for a datagram socket: every chunk is one datagram
+/// (cut into datagrams of at most 1024 bytes, the size the reader asks the
+/// socket for); datagrams queue up and are received one per call.
+pub struct TimedDatagrams {
+    data: Arc<Vec<u8>>,
+    chunks: Vec<(u64, usize)>,
+    ci: usize,
+    pos: usize,
+    pub reads: Arc<std::sync::Mutex<(u64, u64, u64)>>,
+}
+
+impl futures_util::stream::Stream for TimedDatagrams {
+    type Item = std::io::Result<Vec<u8>>;
+    fn poll_next(mut self: Pin<&mut Self>, cx: &mut Context<'_>) -> Poll<Option<Self::Item>> {
+        let this = &mut *self;
+        while this.ci < this.chunks.len() && this.pos >= this.chunks[this.ci].1 {
+            this.ci += 1;
+        }
+        if this.ci >= this.chunks.len() {
+            return Poll::Pending; // nobody sends any more: silent
+        }
+        let (at, end) = this.chunks[this.ci];
+        if exec::now_ns() < at {
+            exec::wake_at(at, cx.waker().clone());
+            this.reads.lock().unwrap().2 += 1;
+            return Poll::Pending;
+        }
+        let n = (end - this.pos).min(1024);
+        let d = this.data[this.pos..this.pos + n].to_vec();
+        this.pos += n;
+        this.reads.lock().unwrap().0 += 1;
+        exec::log_u64(0xD200_0000 | n as u64);
+        Poll::Ready(Some(Ok(d)))
+    }
+}
+
+/// The same delivery plan for a websocket: every chunk is one binary message
+/// (server side of the connection after the handshake, unmasked, FIN set)
+fn websocket_plan(data: &[u8], chunks: &[(u64, usize)]) -> (Vec<u8>, Vec<(u64, usize)>) {
+    let mut wire = Vec::new();
+    let mut out = Vec::new();
+    let mut pos = 0usize;
+    for (at, end) in chunks {
+        let n = end.saturating_sub(pos);
+        if n == 0 {
+            continue;
+        }
+        wire.push(0x82);
+        if n < 126 {
+            wire.push(n as u8);
+        } else if n < 65536 {
+            wire.push(126);
+            wire.extend_from_slice(&(n as u16).to_be_bytes());
+        } else {
+            wire.push(127);
+            wire.extend_from_slice(&(n as u64).to_be_bytes());
+        }
+        wire.extend_from_slice(&data[pos..*end]);
+        pos = *end;
+        out.push((*at, wire.len()));
+    }
+    (wire, out)
+}
+
+/// scheme of a configured source: "tcp", "udp" or "ws"
+fn scheme_of(text: &str) -> &'static str {
+    if text.starts_with("udp") {
+        "udp"
+    } else if text.starts_with("ws") || text.contains("\"websocket\"") {
+        "ws"
+    } else {
+        "tcp"
+    }
+}
+
+/// A piece of the source's text that the address handed to connect / bind /
+/// connect_async must contain and that no other receiver's text contains:
+/// ":port", "host:" or "/last path segment"
+fn address_token(j: usize, texts: &[String]) -> String {
+    let t = &texts[j];
+    let mut cands: Vec<String> = Vec::new();
+    let digits = |s: &str| -> Vec<String> {
+        let mut v = Vec::new();
+        let mut cur = String::new();
+        for c in s.chars() {
+            if c.is_ascii_digit() {
+                cur.push(c);
+            } else if !cur.is_empty() {
+                v.push(std::mem::take(&mut cur));
+            }
+        }
+        if !cur.is_empty() {
+            v.push(cur);
+        }
+        v
+    };
+    if let Some(last) = digits(t).last() {
+        if scheme_of(t) == "ws" {
+            cands.push(format!("/{}", last));
+        } else {
+            cands.push(format!(":{}", last));
+        }
+    }
+    // host: of the URL, or of the "address" field of the long form
+    let host: Option<String> = if t.starts_with('{') {
+        serde_json::from_str::<Value>(t).ok().and_then(|v| v["tcp"]["address"].as_str().map(|s| s.to_string()))
+    } else {
+        t.split("://").nth(1).and_then(|rest| rest.split(|c| c == ':' || c == '/').next()).map(|s| s.to_string())
+    };
+    if let Some(host) = host {
+        cands.push(format!("{}:", host));
+        if let Some(last) = digits(t).last() {
+            cands.push(format!("{}:{}", host, last));
+        }
+    }
+    for c in &cands {
+        if !texts.iter().enumerate().any(|(k, o)| k != j && o.contains(c.as_str())) {
+            return c.clone();
+        }
+    }
+    cands.into_iter().next().unwrap_or_default()
+}
+
 // ------------------------------------------------------------------ plan
 
 #[derive(Clone, Debug, Serialize, Deserialize)]
@@ -155,6 +277,11 @@ pub struct RxPlan {
     /// reference is of no use for the surface reports it never receives)
     #[serde(default)]
     pub far: bool,
+    /// a source configured as tcp:// whose connection is refused: the real
+    /// receiver then binds a UDP socket on the same address (beast.rs) and the
+    /// chunks arrive as datagrams
+    #[serde(default)]
+    pub refuse_tcp: bool,
 }
 
 #[derive(Clone, Debug, Serialize, Deserialize)]
@@ -380,6 +507,7 @@ impl Scenario for Pipeline {
                 cut_seed: rng.next_u64(),
                 stalls: Vec::new(),
                 far,
+                refuse_tcp: rng.chance(0.08),
                 gnss_offset_ns: if rng.chance(0.5) { Some(*rng.pick(&[0i64, 0, 1_000_000, -2_000_000_000, 13_000_000_000, -17_000_000_000, 600_000_000_000])) } else { None },
             });
             latency.push(rng.range(0, 300_000_000));
@@ -616,7 +744,7 @@ impl Scenario for Pipeline {
             level: "exploration",
             rule: "One run = one seeded air picture (1-3 aircraft with positions, identification, velocity, surveillance and Comm-B replies, Mode-AC replies) heard by 1-3 receivers through a lossy radio channel (loss, duplicates, bit flips), each receiver's Beast byte stream delivered with its own latency, chunking style (per frame, random cuts, one byte per read, bursts of 1 kB and more) and network stalls to the real beast::receiver, then through real tokio channels (capacity is a knob) to the real deduplicate_messages, main()'s decoding loop around the real decode_position/update_snapshot/store_history, with the TUI task (real update/build_table), GET /all readers (real web::all), lock-holders and the expiry sweep alongside, all tasks interleaved by the seeded scheduler on the simulated clock. Distinct = distinct hash of the ordered poll/timer/read/send/event log. Non-trivial = at least one record reached the table AND at least one fault fired (loss, duplicate, bit flip, stall, non-trivial chunking, back-pressure, lock hold, several runnable tasks at some step).",
             components: vec![
-                ("rs1090::source::beast::receiver + next_msg + process_radarcape", "real (transport through hook H2, clock through hook H3)"),
+                ("Source::receiver (configured source -> BeastSource) + rs1090::source::beast::receiver (connect / bind / connect_async, TCP-refused fallback to UDP) + next_msg (TCP, UDP and websocket arms) + process_radarcape", "real (simulated sockets through hook H8, clock through hook H3)"),
                 ("tokio::sync::mpsc channels (receivers -> dedup -> main loop)", "real"),
                 ("jet1090::dedup::deduplicate_messages", "real"),
                 ("rs1090 decode_position / Message::from_bytes", "real"),
@@ -895,6 +1023,8 @@ pub fn execute(plan: &PipelinePlan, prop: &'static str) -> Outcome<PipelinePlan>
     let mut references: BTreeMap<u64, Option<Position>> = BTreeMap::new();
     let mut sensors_map: BTreeMap<u64, crate::sensor::Sensor> = BTreeMap::new();
     let mut serial_of: Vec<u64> = Vec::new();
+    let mut sources: Vec<crate::source::Source> = Vec::new();
+    let mut texts: Vec<String> = Vec::new();
     for (j, rp) in plan.receivers.iter().enumerate() {
         use std::str::FromStr;
         let text = if rp.source.is_empty() { format!("tcp://192.0.2.{}:30005", 10 + j) } else { rp.source.clone() };
@@ -917,14 +1047,59 @@ pub fn execute(plan: &PipelinePlan, prop: &'static str) -> Outcome<PipelinePlan>
             references.insert(sensor.serial, sensor.reference);
             sensors_map.insert(sensor.serial, sensor);
         }
+        sources.push(source);
+        texts.push(text);
     }
-    for (j, pipe) in pipes.into_iter().enumerate() {
-        let txj = tx_in.clone();
-        let serial = serial_of[j];
-        sim.spawn("beast::receiver(real)", async move {
-            let src = BeastSource::Verif(DataSource::Verif(Box::pin(pipe)));
-            let _ = rs1090::source::beast::receiver(src, txj, serial, Some(format!("rx{}", j))).await;
-        });
+    // the receivers as main() starts them (main.rs: `source.receiver(tx_copy,
+    // serial, source.name.clone())`): the real Source::receiver maps the
+    // configured source to a BeastSource, the real beast::receiver connects /
+    // binds on the simulated network (hook H8) and reads through the arm of
+    // next_msg that belongs to the transport
+    {
+        use rs1090::source::verif_net::{self, Peer};
+        verif_net::clear();
+        for (j, (pipe, source)) in pipes.into_iter().zip(sources.into_iter()).enumerate() {
+            let token = address_token(j, &texts);
+            if token.is_empty() || texts.iter().enumerate().any(|(k, o)| k != j && o.contains(token.as_str())) {
+                // no piece of the configured address tells this receiver from
+                // the others: hand the byte stream over directly (hook H2)
+                out.count("transport_h2_direct", 1);
+                let txj = tx_in.clone();
+                let serial = serial_of[j];
+                sim.spawn("beast::receiver(real)", async move {
+                    let src = rs1090::source::beast::BeastSource::Verif(rs1090::source::beast::DataSource::Verif(Box::pin(pipe)));
+                    let _ = rs1090::source::beast::receiver(src, txj, serial, Some(format!("rx{}", j))).await;
+                });
+                continue;
+            }
+            let key = format!("~{}", token);
+            let as_datagrams = |p: TimedPipe| TimedDatagrams { data: p.data, chunks: p.chunks, ci: 0, pos: 0, reads: p.reads };
+            match (scheme_of(&texts[j]), plan.receivers[j].refuse_tcp) {
+                ("udp", _) => {
+                    out.count("transport_udp", 1);
+                    verif_net::register(&key, Peer::Udp(Box::pin(as_datagrams(pipe))));
+                }
+                ("ws", _) => {
+                    out.count("transport_websocket", 1);
+                    let (w, c) = websocket_plan(&pipe.data, &pipe.chunks);
+                    verif_net::register(&key, Peer::Websocket(Box::pin(TimedPipe { data: Arc::new(w), chunks: c, ci: 0, pos: 0, read_cap: pipe.read_cap, reads: pipe.reads })));
+                }
+                ("tcp", true) => {
+                    out.count("transport_tcp_refused_then_udp", 1);
+                    verif_net::register(&key, Peer::TcpRefused(std::io::ErrorKind::ConnectionRefused));
+                    verif_net::register(&key, Peer::Udp(Box::pin(as_datagrams(pipe))));
+                }
+                _ => {
+                    out.count("transport_tcp", 1);
+                    verif_net::register(&key, Peer::Tcp(Box::pin(pipe)));
+                }
+            }
+            let txj = tx_in.clone();
+            let serial = serial_of[j];
+            sim.spawn("Source::receiver -> beast::receiver(real)", async move {
+                source.receiver(txj, serial, source.name.clone()).await;
+            });
+        }
     }
     drop(tx_in);
     let rx_for_dedup = if plan.tap {
